@@ -4,6 +4,7 @@ package main
 
 import (
 	"go/ast"
+	"go/token"
 	"strings"
 )
 
@@ -225,13 +226,215 @@ func c25FlushesAtCountBound(s *c02Src) (Tri, string) {
 	return Unknown, c02Where(s.b, add)
 }
 
-// the block-reader facts the model's reader relies on (same detectors as C04)
+// the block-reader facts the model's reader relies on.  Same questions as C04 asks of ParseBlock, answered
+// with `unknown` (never `no`) for a shape this extractor does not know: `no` only when the check is absent.
 func c25ReaderAssumptions(fs *Facts, s *c02Src) {
-	ty, err := Load(c01Types)
-	if err != nil {
-		ty = nil
+	names := []string{"validatesCrc", "crcBeforeDecompress", "validatesULen", "boundsDecodedLen", "parseConsumesAll"}
+	res := map[string]Tri{}
+	for _, n := range names {
+		res[n] = Unknown
 	}
-	c04ParseBlock(fs, s.b, ty)
+	where := c02Block
+	defer func() {
+		for _, n := range names {
+			fs.Tri(n, res[n], where)
+		}
+	}()
+	ty, err := Load(c01Types)
+	if err != nil || s.b == nil {
+		return
+	}
+	fd := s.b.Func("", "ParseBlock")
+	if fd == nil {
+		return
+	}
+	where = c02Where(s.b, fd)
+	vc, cc := ty.Func("", "ValidateChecksum"), ty.Func("", "CalculateChecksum")
+	crcFn := vc != nil && cc != nil && ty.Contains(vc.Body, "CalculateChecksum(data) == expected") && ty.Contains(cc.Body, "crc32.ChecksumIEEE(data)")
+	dec := s.b.Calls(fd.Body, "snappyCompressor.Decompress")
+	if len(dec) != 1 {
+		return
+	}
+	decPos := dec[0].Pos()
+	// the entry loop: a `for` or a `for range` whose body calls Deserialize
+	var loopEnd token.Pos
+	ast.Inspect(fd.Body, func(x ast.Node) bool {
+		switch l := x.(type) {
+		case *ast.ForStmt:
+			if loopEnd == token.NoPos && s.b.Contains(l.Body, ".Deserialize(") {
+				loopEnd = l.End()
+			}
+		case *ast.RangeStmt:
+			if loopEnd == token.NoPos && s.b.Contains(l.Body, ".Deserialize(") {
+				loopEnd = l.End()
+			}
+		}
+		return true
+	})
+	body := s.b.Str(fd.Body)
+	// absent checks are `no`; present in a shape not recognised below stay `unknown`
+	if !strings.Contains(body, "ValidateChecksum") && !strings.Contains(body, "Checksum") {
+		res["validatesCrc"], res["crcBeforeDecompress"] = No, No
+	}
+	if !strings.Contains(body, "UncompressedSize") {
+		res["validatesULen"] = No
+	}
+	if !strings.Contains(body, "DecodedLen") {
+		res["boundsDecodedLen"] = No
+	}
+	if !strings.Contains(body, "len(uncompressed)") || strings.Count(body, "offset") < 2 {
+		res["parseConsumesAll"] = No
+	}
+	for _, is := range c04Ifs(s.b, fd.Body) {
+		c := c04Cond(s.b, is)
+		bad := c04RetMentions(s.b, is, "ErrCorruptedBlock")
+		switch {
+		case c == "!ValidateChecksum(compressedData,header.Checksum)" && bad:
+			if crcFn {
+				res["validatesCrc"] = Yes
+			}
+			res["crcBeforeDecompress"] = TriOf(is.Pos() < decPos)
+		case c == "uint32(len(uncompressed))!=header.UncompressedSize" && bad && is.Pos() > decPos:
+			res["validatesULen"] = Yes
+		case bad && is.Pos() < decPos && strings.Contains(c, "32*len(compressedData)+64") && (strings.Contains(c, "DecodedLen") || strings.Contains(c, "dLen") || strings.Contains(c, "declared")):
+			res["boundsDecodedLen"] = Yes
+		case bad && (c == "offset!=len(uncompressed)" || c == "len(uncompressed)!=offset"):
+			if loopEnd != token.NoPos && is.Pos() > loopEnd {
+				res["parseConsumesAll"] = Yes
+			} else {
+				res["parseConsumesAll"] = Unknown
+			}
+		}
+	}
+}
+
+// FileWriter.WriteEntry: does it return the error of the flush it triggers?
+//   yes: `if shouldFlush { return fw.flushLocked() }`;  no: the flush result is discarded and the function ends with `return nil`
+func c25WriteEntryReports(s *c02Src) (Tri, string) {
+	if s.w == nil {
+		return Unknown, ""
+	}
+	fd := s.w.Func("FileWriter", "WriteEntry")
+	if fd == nil {
+		return Unknown, c02Writer
+	}
+	where := c02Where(s.w, fd)
+	calls := s.w.Calls(fd, "fw.flushLocked")
+	if len(calls) != 1 {
+		return Unknown, where
+	}
+	returned, discarded := false, false
+	ast.Inspect(fd.Body, func(n ast.Node) bool {
+		switch x := n.(type) {
+		case *ast.ReturnStmt:
+			if len(x.Results) == 1 && s.w.Str(x.Results[0]) == "fw.flushLocked()" {
+				returned = true
+			}
+		case *ast.AssignStmt:
+			if len(x.Lhs) == 1 && len(x.Rhs) == 1 && s.w.Str(x.Lhs[0]) == "_" && s.w.Str(x.Rhs[0]) == "fw.flushLocked()" {
+				discarded = true
+			}
+		case *ast.IfStmt:
+			// `if err := fw.flushLocked(); err != nil { return err }`
+			if x.Init != nil && strings.Contains(s.w.Str(x.Init), "fw.flushLocked()") && strings.Contains(s.w.Str(x.Body), "return err") {
+				returned = true
+			}
+		}
+		return true
+	})
+	last := fd.Body.List[len(fd.Body.List)-1]
+	switch {
+	case returned && !discarded:
+		return Yes, where
+	case discarded && !returned && s.w.Str(last) == "return nil":
+		return No, where
+	}
+	return Unknown, where
+}
+
+// FileWriter.Close: is the file closed on an error path (the writer would be dead), or only at the very end?
+func c25CloseKeepsFile(s *c02Src) (Tri, string) {
+	if s.w == nil {
+		return Unknown, ""
+	}
+	fd := s.w.Func("FileWriter", "Close")
+	if fd == nil {
+		return Unknown, c02Writer
+	}
+	where := c02Where(s.w, fd)
+	total := len(s.w.Calls(fd, "fw.file.Close"))
+	inErr := 0
+	for _, st := range fd.Body.List {
+		if ifs, ok := st.(*ast.IfStmt); ok && strings.Contains(s.w.Str(ifs.Cond), "err != nil") {
+			inErr += len(s.w.Calls(ifs.Body, "fw.file.Close"))
+		}
+	}
+	last := s.w.Str(fd.Body.List[len(fd.Body.List)-1])
+	switch {
+	case total == 1 && inErr == 0 && last == "return fw.file.Close()" && s.w.Contains(fd, "fw.closed = true"):
+		return Yes, where
+	case inErr > 0 && inErr == total-1:
+		return No, where
+	}
+	return Unknown, where
+}
+
+// chroniclerV2.Close and runCompactionLocked: `if err := c.writer.Close(); err != nil { …; return err }` in front of `c.writer = nil`
+func c25ChronKeepsWriter(s *c02Src) (Tri, string) {
+	if s.ch == nil {
+		return Unknown, ""
+	}
+	where := c02Chron
+	for _, fn := range []string{"Close", "runCompactionLocked"} {
+		fd := s.ch.Func("chroniclerV2", fn)
+		if fd == nil {
+			return Unknown, c02Chron
+		}
+		where = c02Where(s.ch, fd)
+		ok := false
+		ast.Inspect(fd.Body, func(n ast.Node) bool {
+			ifs, isIf := n.(*ast.IfStmt)
+			if !isIf || ifs.Init == nil || s.ch.Str(ifs.Init) != "err := c.writer.Close()" {
+				return true
+			}
+			body := s.ch.Str(ifs.Body)
+			if strings.HasSuffix(body, "return err }") && !strings.Contains(body, "c.writer = nil") && !strings.Contains(body, "c.writerClosed = true") {
+				ok = true
+			}
+			return true
+		})
+		if !ok {
+			return Unknown, where
+		}
+	}
+	return Yes, where
+}
+
+// WriteBuffer.Restore puts the entries back IN FRONT of what is buffered (the order of the entries is the order of the writes)
+func c25RestorePrepends(s *c02Src) (Tri, string) {
+	if s.b == nil {
+		return Unknown, ""
+	}
+	fd := s.b.Func("WriteBuffer", "Restore")
+	if fd == nil {
+		if s.w != nil && len(s.w.Calls(s.w.Func("FileWriter", "flushLocked"), "fw.buffer.Restore")) == 0 {
+			return Yes, c02Block // nothing is ever restored
+		}
+		return Unknown, c02Block
+	}
+	where := c02Where(s.b, fd)
+	n, front := 0, false
+	ast.Inspect(fd.Body, func(x ast.Node) bool {
+		if as, ok := x.(*ast.AssignStmt); ok && len(as.Lhs) == 1 && s.b.Str(as.Lhs[0]) == "wb.entries" {
+			n++
+			front = s.b.Str(as.Rhs[0]) == "append(entries, wb.entries...)"
+		}
+		return true
+	})
+	if n == 1 && front {
+		return Yes, where
+	}
+	return Unknown, where
 }
 
 func init() {
@@ -246,6 +449,10 @@ func init() {
 		fs.Tri("splitsOversizedBuffer", t, w)
 		t, w = c25FlushesAtCountBound(s)
 		fs.Tri("flushesAtCountBound", t, w)
+		t, w = c25RestorePrepends(s)
+		fs.Tri("restorePrepends", t, w)
+		t, w = c02ZeroTailIsEOF(s)
+		fs.Tri("zeroTailIsEOF", t, w)
 		t, w = c25WriteErrorsSkipped(s)
 		fs.Tri("writeErrorsSkipped", t, w)
 		t, w = c25SyncErrorLogged(s)
@@ -264,6 +471,12 @@ func init() {
 		fs.Tri("tornDataIsEOF", td, w)
 		t, w = c03CloseErrorAborts(s)
 		fs.Tri("closeErrorAborts", t, w)
+		t, w = c25WriteEntryReports(s)
+		fs.Tri("writeEntryReportsFlushError", t, w)
+		t, w = c25CloseKeepsFile(s)
+		fs.Tri("closeKeepsFileOnError", t, w)
+		t, w = c25ChronKeepsWriter(s)
+		fs.Tri("chronKeepsWriterOnCloseError", t, w)
 		c25ReaderAssumptions(fs, s)
 	}})
 }
